@@ -63,9 +63,10 @@ def run_jobs(jobs: list, scratch: Path, *, procs: int = NPROC, env: Optional[dic
     for i, ch in enumerate(chunks):
         jf, of = scratch / f'jobs_{i}_{id(jobs)}.json', scratch / f'out_{i}_{id(jobs)}.ndjson'
         json.dump(ch, open(jf, 'w'))
-        e = rig_env(env)
-        if isinstance(env, list):
-            e = rig_env(env[i % len(env)])
+        e = rig_env(env[i % len(env)] if isinstance(env, list) else env)
+        tmpd = scratch / f'tmp_{i}'
+        tmpd.mkdir(exist_ok=True)
+        e['TMPDIR'] = str(tmpd)
         p = subprocess.Popen([PY, '-m', module, str(jf), str(of)], cwd=str(scratch), env=e,
                              stdout=subprocess.DEVNULL, stderr=open(scratch / f'err_{i}.txt', 'w'))
         ps.append((p, jf, of, i))
@@ -81,7 +82,7 @@ def run_jobs(jobs: list, scratch: Path, *, procs: int = NPROC, env: Optional[dic
         if of.exists():
             for line in open(of):
                 got.append(json.loads(line))
-        if len(got) != len(chunks[i]):
+        if len(got) < len(chunks[i]):
             err = open(scratch / f'err_{i}.txt').read()[-3000:]
             raise tlc.TLCMachineryError(f'rig subprocess {i} produced {len(got)} of {len(chunks[i])} results '
                                         f'(exit {p.returncode})\n{err}')
@@ -92,7 +93,7 @@ def run_jobs(jobs: list, scratch: Path, *, procs: int = NPROC, env: Optional[dic
     if errs:
         raise tlc.TLCMachineryError(f'{len(errs)} rig jobs failed, first: {errs[0]["tid"]}\n{errs[0]["error"]}')
     order = {j['id']: k for k, j in enumerate(jobs)}
-    out.sort(key=lambda o: order[o['tid']])
+    out.sort(key=lambda o: (order.get(o['tid'], order.get(o['tid'].rsplit('-L', 1)[0], 0)), o['tid']))
     return out
 
 
@@ -123,8 +124,8 @@ def write_cfgs(cfgs: list, scratch: Path, name: str = 'cfgs') -> Path:
 
 
 def labrun_cfg_text(*, invariants: Iterable[str], properties: Iterable[str] = (), max_int: int = 0,
-                    allow_die: bool = True, record: bool = False, spec: str = 'Spec') -> str:
-    lines = ['CONSTANTS', f'  RecordHist = {"TRUE" if record else "FALSE"}', f'  MaxInt = {max_int}',
+                    allow_die: bool = True, record: bool = False, spec: str = 'Spec', logs: bool = False) -> str:
+    lines = ['CONSTANTS', f'  Logs = {"TRUE" if logs else "FALSE"}', f'  RecordHist = {"TRUE" if record else "FALSE"}', f'  MaxInt = {max_int}',
              f'  AllowDie = {"TRUE" if allow_die else "FALSE"}', f'SPECIFICATION {spec}']
     lines += [f'INVARIANT {i}' for i in invariants]
     lines += [f'PROPERTY {p}' for p in properties]
